@@ -149,7 +149,7 @@ theorem keyL_of_normKey (ci : Bool) (a u : Str) :
 
 /-- what one M-SEARCH of a model run puts on the response socket -/
 theorem sendsOf_spec {k : Consts} (hk : ConstsOk k) {t : DevTree} (hw : WF t) (cfg : Cfg)
-    (hl : validLocation cfg.location = true) (target : Str) (searches : List SearchIn) (ann : Option AnnIn)
+    (target : Str) (searches : List SearchIn) (ann : Option AnnIn)
     (i : SearchIn) (hr : isMSearch i.req = true) :
     (runSearch k t i).raised = false ∧
     ((sendsOf k cfg t i).map fun m => keyL m.st m.usn).Perm
@@ -191,8 +191,11 @@ theorem sendsOf_spec {k : Consts} (hk : ConstsOk k) {t : DevTree} (hw : WF t) (c
     refine ⟨⟨⟨rfl, ht1⟩, ht2⟩, e, he, ⟨hek, ?_⟩, ?_⟩
     · show startsWith s.msg.usn e.dev = true
       rw [husn]; exact heok.usn_prefix
-    · simp only [heardOk, obsResponse, hearResponse_ok heok cfg husn hst hl]
-      simp [runCase, hl]
+    · by_cases hl : validLocation cfg.location = true
+      · simp only [heardOk, obsResponse, hearResponse_ok heok cfg husn hst hl]
+        simp [runCase, hl]
+      · have hl' : validLocation cfg.location = false := by simpa using hl
+        simp [heardOk, runCase, hl']
 
 theorem filter_responses (k : Consts) (cfg : Cfg) (t : DevTree) (r : Str) : ∀ (searches : List SearchIn),
     (searches.flatMap (sendsOf k cfg t)).filter (·.dest == r)
@@ -219,7 +222,7 @@ theorem filter_responses (k : Consts) (cfg : Cfg) (t : DevTree) (r : Str) : ∀ 
 
 /-- **the searches of a model run satisfy the judge**, however many of them share a requester -/
 theorem okResponses_run {k : Consts} (hk : ConstsOk k) {t : DevTree} (hw : WF t) (cfg : Cfg)
-    (hl : validLocation cfg.location = true) (target : Str) (searches : List SearchIn) (ann : Option AnnIn) :
+    (target : Str) (searches : List SearchIn) (ann : Option AnnIn) :
     okResponses (runCase k cfg target t searches ann) = true := by
   have hs : (runCase k cfg target t searches ann).searches = searches.map (runSearch k t) := rfl
   have hrs : (runCase k cfg target t searches ann).responses = searches.flatMap (sendsOf k cfg t) := rfl
@@ -231,7 +234,7 @@ theorem okResponses_run {k : Consts} (hk : ConstsOk k) {t : DevTree} (hw : WF t)
     rw [hs] at hsm
     obtain ⟨i, _, rfl⟩ := List.mem_map.mp hsm
     by_cases hr : isMSearch i.req = true
-    · have := (sendsOf_spec hk hw cfg hl target searches ann i hr).1
+    · have := (sendsOf_spec hk hw cfg target searches ann i hr).1
       simp [runSearch] at this ⊢
       right; simpa [runSearch] using this
     · simp only [Bool.or_eq_true, Bool.not_eq_true']; left
@@ -241,7 +244,7 @@ theorem okResponses_run {k : Consts} (hk : ConstsOk k) {t : DevTree} (hw : WF t)
     rw [hrs] at hm
     obtain ⟨i, hi, hmi⟩ := List.mem_flatMap.mp hm
     by_cases hr : isMSearch i.req = true
-    · obtain ⟨_, _, hall⟩ := sendsOf_spec hk hw cfg hl target searches ann i hr
+    · obtain ⟨_, _, hall⟩ := sendsOf_spec hk hw cfg target searches ann i hr
       obtain ⟨_, _, h3, h4, h5, h6⟩ := hall m hmi
       simp only [Bool.or_eq_true, Bool.and_eq_true, beq_iff_eq, List.any_eq_true]
       right
@@ -276,11 +279,11 @@ theorem okResponses_run {k : Consts} (hk : ConstsOk k) {t : DevTree} (hw : WF t)
         (fun i => expKeysL (runCase k cfg target t searches ann) (runSearch k t i))
         (fun i => (sendsOf k cfg t i).map fun m => (keyL m.st m.usn, m.time))
         (fun i hi => by
-          have := (sendsOf_spec hk hw cfg hl target searches ann i (hgood i hi)).2.1
+          have := (sendsOf_spec hk hw cfg target searches ann i (hgood i hi)).2.1
           simpa [List.map_map, Function.comp_def] using this)
         (fun i hi m hm => by
           obtain ⟨m', hm', rfl⟩ := List.mem_map.mp hm
-          have := (sendsOf_spec hk hw cfg hl target searches ann i (hgood i hi)).2.2 m' hm'
+          have := (sendsOf_spec hk hw cfg target searches ann i (hgood i hi)).2.2 m' hm'
           exact ⟨this.1, this.2.1⟩)
       simp only [runSearch] at hcore ⊢
       exact hcore
